@@ -464,7 +464,12 @@ def correspond(run, corr, parts=PARTS):
     # `CRASH` from the model = the unchanged code's behaviour on this request is undefined (it only arises for requests of
     # the L1 side outside the phyif contract, e.g. a burst request longer than the datagram buffer; for datagrams arriving
     # on the sockets trxc_rsp_no_crash / trxd_rx_in_bounds prove it impossible): whatever the code does there refines it
-    corr.compare(reqs, impl, model, model_ub=lambda b: b == "CRASH")
+    # whether an ERROR-level log line was written (last number of `st ...` in a tc.rsp answer) is recorded, but log levels and
+    # texts are not behaviour any property speaks about: a difference in that flag alone is evidence, not a broken tie
+    noelog = lambda a: re.sub(r"(\| st \d+ \d+ -?\d+ -?\d+) [01] \|", r"\1 |", a)
+    log_only = {r for r, a, b in zip(reqs, impl, model) if a != b and noelog(a) == noelog(b)}
+    corr.distribution["trxcon: answers differing only in the error-log flag (outside the properties)"] = len(log_only)
+    corr.compare(reqs, impl, model, in_domain=lambda r: r not in log_only, model_ub=lambda b: b == "CRASH")
     for r, a in zip(reqs, impl):
         v = r.split(" ", 1)[0]
         corr.count(r, "%s:%s" % (v, outcome_class(v, a)))
